@@ -257,12 +257,30 @@ def _docs(tier):
     return _DOCS[tier]
 
 
+GRID_ROWS = [4, 8, 12, 16, 20, 24, 28, 32, 36, 40, 44, 48, 52, 64, 96, 128, 192, 384]
+
+
 def roots(tier, seed):
     n = len(_docs(tier))
-    return [dict(start=s, stop=min(n, s + CHUNK)) for s in range(0, n, CHUNK)]
+    return [dict(start=s, stop=min(n, s + CHUNK)) for s in range(0, n, CHUNK)] + [dict(grid=r) for r in GRID_ROWS]
+
+
+def check_grid(R, ctx):
+    """A symbol on EVERY row of a measure of R rows (columns cycling), a second measure of another row count, tempo change mid-file."""
+    doc = default_doc()
+    doc["bpms"] = [("0.000", "120.000"), ("4.000", "90.000")]
+    doc["offset"] = "-0.250"
+    c = doc["charts"][0]
+    c["measures"] = [dict(rows=R, cells={(r, r % 4): "1" for r in range(R)}), dict(rows=4, cells={}), dict(rows=R, cells={(r, (r + 1) % 4): ("M" if r % 2 else "1") for r in range(0, R, 3)})]
+    for k in ("_first", "_rows", "_lead"):
+        doc.pop(k, None)
+    run_doc(doc, dict(devs=[f"grid={R}"], elems=[]), dict(grid=R), ctx, ("sm-grid", R))
 
 
 def explore(root, tier, ctx):
+    if "grid" in root:
+        check_grid(root["grid"], ctx)
+        return
     docs = _docs(tier)
     for i in range(root["start"], root["stop"]):
         devs, seq = docs[i]
@@ -270,7 +288,10 @@ def explore(root, tier, ctx):
 
 
 def replay(case, ctx):
-    check(tuple(tuple(x) for x in case["devs"]), tuple(case["seq"]), ctx, -1)
+    if "grid" in case:
+        check_grid(case["grid"], ctx)
+    else:
+        check(tuple(tuple(x) for x in case["devs"]), tuple(case["seq"]), ctx, -1)
 
 
 def lib_objs(m):
@@ -294,12 +315,19 @@ def check(devs, seq, ctx, i):
     if doc.get("_invalid"):
         ctx.extra["skipped_ill_formed_documents"] += 1
         return
+    ctx.depth(len(seq))
+    run_doc(doc, lab, dict(devs=[list(d) for d in devs], seq=list(seq)), ctx, ("sm", devs, seq), nontrivial=bool(devs or seq))
+
+
+def run_doc(doc, lab, case, ctx, key, nontrivial=True):
+    from reamber.sm import SMMapSet
+
+    devs = lab["devs"]
     text = rs.render(doc)
     den = rs.denote(doc)
-    case = dict(devs=[list(d) for d in devs], seq=list(seq), label=lab, text=text)
+    case = dict(case, label=lab, text=text)
     ctx.case()
-    ctx.state(("sm", devs, seq), nontrivial=bool(devs or seq))
-    ctx.depth(len(seq))
+    ctx.state(key, nontrivial=nontrivial)
     if len(ctx.samples) < 1 and len(devs) == 2:
         ctx.sample(dict(label=lab, text=text[-300:]))
     site = dict(devs=sorted({a.split("=")[0] for a in lab["devs"]}))
